@@ -61,6 +61,10 @@ def rules(ctx):
     must_depend(ctx, "R4.unserved-definition", "T1", S("compute_unserved_passengers_at_node"), "ret",
                 [call(N("passengers_of")), call(N("seated_passengers_of")), call(TRAINF + "::capacity"), call(TRAINF + "::seats")],
                 "unserved passengers at a node = demand minus formation capacity / seats")
+    from . import formulas
+    before = len(ctx.obligations)
+    formulas.network_formulas(ctx, "R4")
+    ctx.obligations[before:] = [o for o in ctx.obligations[before:] if "idle_time" in o.id or "duration" in o.id]
     # R5: the caches read by the indicators are maintained truthfully (rule groups shared with C09 / C07)
     from .C09 import tour_cache_rules, cycle_update_rules, cost_delta_form
     from .C07 import unserved_is_a_sum
